@@ -32,7 +32,7 @@ type c05Params struct {
 	K       connCfg
 	Writers [][]wop // one program per writer task
 	Pinger  bool    // a Ping task plus a reader task and a peer answering it
-	Closer  string  // "", "Close", "CloseNow", "cancel0" (cancel writer 0's context)
+	Closer  string  // "", "Close", "CloseNow", "cancel0"/"cancel1" (cancel that writer's context)
 	Window  int     // transport window (0 unbounded)
 }
 
@@ -85,8 +85,15 @@ func c05Setup(prm c05Params) func(c *fw.Ctx, name string) explore.Setup {
 				for i := range ctxs {
 					ctxs[i] = bg
 				}
-				if prm.Closer == "cancel0" {
-					ctxs[0], cancels[0] = vctx.WithCancel(bg)
+				cancelIdx := -1
+				switch prm.Closer {
+				case "cancel0":
+					cancelIdx = 0
+				case "cancel1":
+					cancelIdx = 1
+				}
+				if cancelIdx >= 0 {
+					ctxs[cancelIdx], cancels[cancelIdx] = vctx.WithCancel(bg)
 				}
 				for ti, prog := range prm.Writers {
 					ti, prog := ti, prog
@@ -178,8 +185,8 @@ func c05Setup(prm c05Params) func(c *fw.Ctx, name string) explore.Setup {
 						st.closeErr = conn.CloseNow()
 						st.closed = true
 					})
-				case "cancel0":
-					w.GoHarness("canceller", true, func() { cancels[0]() })
+				case "cancel0", "cancel1":
+					w.GoHarness("canceller", true, func() { cancels[cancelIdx]() })
 				}
 			})
 			return func(complete bool) {
@@ -206,7 +213,7 @@ func c05Oracle(c *fw.Ctx, w *vs.World, name string, prm c05Params, st *c05State)
 		violate(c, w, name, pp+"/no-termination/"+prm.Name+"/"+role, "execution passed the virtual-time horizon with required tasks unfinished")
 		return
 	}
-	if w.Deadlock && prm.Closer == "cancel0" {
+	if w.Deadlock && strings.HasPrefix(prm.Closer, "cancel") {
 		// A cancelled context that leaves the connection open (and with it a
 		// held message lock) is C10's subject; C05 states no liveness clause.
 		c.OutcomeStr(name + "|deadlock-after-cancel")
@@ -529,7 +536,14 @@ func c02Scenarios(tier string) []scenario {
 	if tier == "thorough" {
 		p = 2
 	}
-	for _, k := range []connCfg{{Client: true}, {Client: false}, {Client: true, Flate: true}} {
+	// a writer gives up waiting for the message lock while another goroutine is in the
+	// middle of a compressed message that has already produced deflate output
+	// (more than one 64 KiB block of input): the message must still inflate to what was written
+	for _, k := range []connCfg{{Client: false, Flate: true, Thr: 1}, {Client: true, Flate: true, Thr: 1, CNCT: true, SNCT: true}} {
+		prm := c05Params{Prop: "C02", Name: "WC-cancel1-big", K: k, Closer: "cancel1", Writers: [][]wop{{{Stream: true, Chunks: []int{70000, 10}}}, {{Text: true, Chunks: []int{10}}}}}
+		scs = append(scs, scenario{Name: prm.Name + "/" + k.String(), Cfg: explore.Config{P: p, Horizon: 60e9}, Setup: c05Setup(prm)})
+	}
+	for _, k := range []connCfg{{Client: true}, {Client: false}, {Client: true, Flate: true, Thr: 1}} {
 		for _, prm := range []c05Params{
 			{Prop: "C02", Name: "WP", K: k, Writers: [][]wop{{{Stream: true, Chunks: []int{5, 5}}}}, Pinger: true},
 			{Prop: "C02", Name: "WC-Close", K: k, Closer: "Close", Writers: [][]wop{{{Chunks: []int{10}}}, {{Stream: true, Text: true, Chunks: []int{5, 5}}}}},
